@@ -884,9 +884,19 @@ def _check_section_name(name: bytes) -> bool:
 def _strip_comments(line: bytes) -> bytes:
     comment_bytes = {ord(b"#"), ord(b";")}
     quote = ord(b'"')
+    backslash = ord(b"\\")
     string_open = False
+    escaped = False
     # Normalize line to bytearray for simple 2/3 compatibility
     for i, character in enumerate(bytearray(line)):
+        # A backslash-escaped character (e.g. \") neither toggles quoting
+        # nor starts a comment
+        if escaped:
+            escaped = False
+            continue
+        if character == backslash:
+            escaped = True
+            continue
         # Comment characters outside balanced quotes denote comment start
         if character == quote:
             string_open = not string_open
